@@ -49,15 +49,15 @@ def inode_form_stage(work, rep, ev, tier, rng):
     every value set last must come back; the form chosen is compared with the model (drift only)."""
     cfg = work + "/if.cfg"
     MO = 4 if tier == "quick" else 5
-    base = {"MaxOps": MO, "Emit": False, "BasicChecksSparse": True, "BasicChecksNlink": True, "BasicChecksStart": True, "BasicChecksSize": True, "ExtKeepsFrag": True}
-    write_cfg(cfg, spec="Spec", constants=base, invariants=["Faithful", "BasicHoldsAll", "NoTruncation"], deadlock=False)
+    base = {"MaxOps": MO, "Emit": False, "BasicChecksSparse": True, "BasicChecksNlink": True, "BasicChecksStart": True, "BasicChecksSize": True, "ExtKeepsFrag": True, "ListOnStack": False}
+    write_cfg(cfg, spec="Spec", constants=base, invariants=["Faithful", "BasicHoldsAll", "NoTruncation", "SerialisesAnyLength"], deadlock=False)
     r = run_tlc("InodeForm", cfg, workers=16, timeout=3000, heap="16g")
     ev.tlc(r, "InodeForm ops<=%d" % MO)
     if not r["ok"]:
         print("MODEL-FAILURE: InodeForm violates %s" % r["violated"])
         return None
-    for dev in ("BasicChecksSparse", "BasicChecksNlink", "BasicChecksStart", "BasicChecksSize", "ExtKeepsFrag"):
-        write_cfg(cfg, spec="Spec", constants=dict(base, MaxOps=3, **{dev: False}), invariants=["Faithful", "BasicHoldsAll", "NoTruncation"], deadlock=False)
+    for dev in ("BasicChecksSparse", "BasicChecksNlink", "BasicChecksStart", "BasicChecksSize", "ExtKeepsFrag", "ListOnStack"):
+        write_cfg(cfg, spec="Spec", constants=dict(base, MaxOps=3, **{dev: dev == "ListOnStack"}), invariants=["Faithful", "BasicHoldsAll", "NoTruncation", "SerialisesAnyLength"], deadlock=False)
         r = run_tlc("InodeForm", cfg, workers=8, timeout=900)
         ev.tlc(r, "dev InodeForm not " + dev)
         if not r["violated"]:
@@ -71,7 +71,7 @@ def inode_form_stage(work, rep, ev, tier, rng):
         return None
     if tier == "quick" and len(progs) > 12000:
         # keep every program that involves a 64 bit value, a sample of the rest
-        hot = [p for p in progs if any(len(o) > 1 and o[1] in ("hi", "max") for o in p["prog"])]
+        hot = [p for p in progs if any(len(o) > 1 and o[1] in ("hi", "max", "huge") for o in p["prog"])]
         rest = [p for p in progs if p not in hot] if len(progs) < 30000 else []
         rng.shuffle(hot); rng.shuffle(rest)
         progs = hot[:9000] + rest[:3000]
@@ -94,7 +94,11 @@ def inode_form_stage(work, rep, ev, tier, rng):
             if q.returncode != 0 or "ERROR: AddressSanitizer" in q.stderr or len(lines) != len(part):
                 if "mem" not in seen:
                     seen.add("mem")
-                    rep.violation("inode-form-memory", "inode helper replay: rc %d, %d of %d answers: %s" % (q.returncode, len(lines), len(part), q.stderr[-300:]))
+                    import re as _re
+                    m = _re.search(r"ERROR: AddressSanitizer: ([\w-]+)", q.stderr)
+                    at = render(part[len(lines)]) if len(lines) < len(part) else "?"
+                    rep.violation("inode-form-memory", "writing / reading back the file inode after the calls '%s' ends the process (rc %d%s)"
+                                  % (at, q.returncode, ", AddressSanitizer: " + m.group(1) if m else ""), data={"prog": at, "stderr": q.stderr[-1500:]})
                 continue
             for p, l in zip(part, lines):
                 n += 1
@@ -118,6 +122,121 @@ def inode_form_stage(work, rep, ev, tier, rng):
     ev.set("inode_forms_that_differ_from_the_model(spec drift, no alarm)", drift)
     if drift:
         print("SPEC-DRIFT (no alarm): %d inode programs end in another form (basic / extended) than InodeForm.tla predicts, all values intact" % drift)
+    return n
+
+
+def dir_writer_stage(work, rep, ev, tier, rng):
+    """spec/DirWriter.tla: how a listing is cut into header runs (inode block, 16 bit inode number difference, 256 entries, end of
+    the metadata block).  Exhaustive with small constants; with the REAL constants TLC evaluates a family of explicit long
+    listings around every limit, and each is written by the real directory writer and decoded again (harness/replay_dirwr.c)."""
+    cfg = work + "/dw.cfg"
+    small = {"M": 2, "L": 2, "Cap": 12, "Hdr": 2, "Ent": 2, "MaxEntries": 3 if tier == "quick" else 4, "Emit": False, "DeltaLimit": '"both"', "CountLimit": '"M"',
+             "BlockChecked": True, "SizeFromOffset": True}
+    sdefs = {"Blocks": "{0, 1}", "Nums": "{1, 2, 3, 4, 5, 6}", "NameLens": "{1, 3}", "Offsets": "{0, 5, 11}", "Explicit": "{}"}
+    INV = ["RoundTrip", "CountsOK", "OneBlockPerRun", "RunInsideBlock"]
+    write_cfg(cfg, spec="Spec", constants=small, defs=sdefs, invariants=INV, deadlock=False)
+    r = run_tlc("DirWriter", cfg, workers=8, timeout=1800)
+    ev.tlc(r, "DirWriter small constants")
+    if not r["ok"]:
+        print("MODEL-FAILURE: DirWriter violates %s" % r["violated"])
+        return None
+    for dev in ({"DeltaLimit": '"plusone"'}, {"CountLimit": '"Mplus1"'}, {"BlockChecked": False}, {"SizeFromOffset": False}):
+        write_cfg(cfg, spec="Spec", constants=dict(small, MaxEntries=3, **dev), defs=sdefs, invariants=INV, deadlock=False)
+        r = run_tlc("DirWriter", cfg, workers=8, timeout=600)
+        ev.tlc(r, "dev DirWriter %s" % dev)
+        if not r["violated"]:
+            print("SELF-CHECK-FAILED: DirWriter deviation %s without counterexample" % dev)
+            return None
+    # ---- explicit long listings, real constants ----
+    fam = []
+    N0 = 100000
+
+    def run_of(n, blk=0, start=N0, step=1, nlen=4):
+        return [[blk, start + i * step, nlen] for i in range(n)]
+    for n in (1, 255, 256, 257, 511, 512, 513):
+        fam.append((0, run_of(n)))
+    for d in (32766, 32767, 32768, 32769, 65535, 65536):
+        fam.append((0, [[0, N0, 3], [0, N0 + d, 3], [0, N0 + d + 1, 3]]))
+        fam.append((0, [[0, N0, 3], [0, N0 - d, 3], [0, N0 - d - 1, 3]]))
+        fam.append((0, [[0, N0, 3], [0, N0 + 5, 3], [0, N0 + d, 3], [0, N0 + 6, 3]]))
+    fam.append((0, run_of(10) + run_of(10, blk=1, start=N0 + 10) + run_of(10, blk=0, start=N0 + 20)))
+    fam.append((0, [[i % 2, N0 + i, 5] for i in range(40)]))
+    for off in (0, 1, 12, 8000, 8179, 8180, 8181, 8191):
+        for nl in (256, 255, 100):
+            for n in (30, 31, 32, 33, 64):
+                fam.append((off, run_of(n, nlen=nl)))
+    r3 = random.Random(SEED + 3)
+    for _ in range(12 if tier == "quick" else 120):
+        n = r3.randrange(200, 700)
+        num, ents = N0, []
+        for i in range(n):
+            num += r3.choice([1, 1, 1, 2, 7, -3, 30000, -30000, 40000, -40000])
+            num = max(num, 1)
+            ents.append([r3.choice([0, 0, 0, 1]), num, r3.choice([1, 2, 8, 60, 256])])
+        fam.append((r3.choice([0, 100, 8000, 8185]), ents))
+    lit = "{" + ", ".join("[off |-> %d, ents |-> <<%s>>]" % (off, ", ".join("[blk |-> %d, num |-> %d, nlen |-> %d]" % tuple(e) for e in ents)) for off, ents in fam) + "}"
+    real = {"M": 256, "L": 32767, "Cap": 8192, "Hdr": 12, "Ent": 8, "MaxEntries": 1, "Emit": True, "DeltaLimit": '"both"', "CountLimit": '"M"', "BlockChecked": True, "SizeFromOffset": True}
+    rdefs = {"Blocks": "{0}", "Nums": "{1}", "NameLens": "{1}", "Offsets": "{0}", "Explicit": lit}
+    write_cfg(cfg, spec="Spec", constants=real, defs=rdefs, invariants=INV + ["EmitOK"], deadlock=False)
+    r = run_tlc("DirWriter", cfg, workers=4, timeout=3000, heap="12g")
+    ev.tlc(r, "DirWriter real constants, %d explicit listings" % len(fam))
+    if not r["ok"]:
+        print("MODEL-FAILURE: DirWriter (explicit listings) violates %s: %s" % (r["violated"], r["out"][-600:]))
+        return None
+    em = bpbind.parse_emitted(r["out"])
+    if len(em) != len({json.dumps(f) for f in fam}):
+        print("SELF-CHECK-FAILED: DirWriter emitted %d of %d listings" % (len(em), len(fam)))
+        return None
+    binp = work + "/replay_dirwr"
+    if not build.compile_harness(VERIF + "/harness/replay_dirwr.c", binp, variant="asan"):
+        raise RuntimeError("harness build failed")
+
+    def chunk(ci):
+        part = em[ci::8]
+        txt = []
+        for c in part:
+            txt.append("D %d" % c["input"]["off"])
+            txt += ["E %d %d %d" % (e["blk"], e["num"], e["nlen"]) for e in c["input"]["ents"]]
+            txt.append("F")
+        q = subprocess.run(["timeout", "600", binp, "%s/dw%d.bin" % (work, ci)], input="\n".join(txt) + "\n", capture_output=True, text=True,
+                           env=dict(os.environ, ASAN_OPTIONS="detect_leaks=1"))
+        return part, q
+    n, drift, seen = 0, 0, set()
+    with ThreadPoolExecutor(8) as ex:
+        for part, q in ex.map(chunk, range(8)):
+            lines = [l for l in q.stdout.split("\n") if l.startswith("{")]
+            if q.returncode != 0 or "ERROR: AddressSanitizer" in q.stderr or len(lines) != len(part):
+                if "mem" not in seen:
+                    seen.add("mem")
+                    rep.violation("dirwriter-memory", "directory writer replay: rc %d, %d of %d answers: %s" % (q.returncode, len(lines), len(part), q.stderr[-300:]))
+                continue
+            for c, l in zip(part, lines):
+                n += 1
+                g = json.loads(l)
+                ents = c["input"]["ents"]
+                desc = "listing of %d entries starting %d bytes into a metadata block" % (len(ents), c["input"]["off"])
+                what = None
+                if g["err"] or g["rerr"]:
+                    what = ("dirwriter-unreadable", "%s: writing / decoding fails (%d / %d)" % (desc, g["err"], g["rerr"]))
+                else:
+                    back = [(run["blk"], e[0], e[1]) for run in g["runs"] for e in run["ents"]]
+                    if back != [(e["blk"], e["num"], e["nlen"]) for e in ents]:
+                        k = next((i for i, (a, b) in enumerate(zip(back, [(e["blk"], e["num"], e["nlen"]) for e in ents])) if a != b), min(len(back), len(ents)))
+                        what = ("dirwriter-roundtrip", "%s does not decode to what was added: entry %d comes back as (inode block, inode number, name length) %s, added %s"
+                                % (desc, k + 1, back[k] if k < len(back) else None, (ents[k]["blk"], ents[k]["num"], ents[k]["nlen"]) if k < len(ents) else None))
+                    elif any(not (1 <= run["count"] <= 256) or run["count"] != len(run["ents"]) for run in g["runs"]):
+                        what = ("dirwriter-count", "%s: a header announces a count outside 1..256" % desc)
+                    elif g["consumed"] != g["size"]:
+                        what = ("dirwriter-size", "%s: the directory size %d differs from the %d bytes of its headers and entries" % (desc, g["size"], g["consumed"]))
+                    elif [(x["count"], x["blk"], x["base"]) for x in g["runs"]] != [(x["count"], x["blk"], x["base"]) for x in c["runs"]]:
+                        drift += 1
+                if what and what[0] not in seen:
+                    seen.add(what[0])
+                    rep.violation(what[0], what[1], data={"off": c["input"]["off"], "entries": ents[:600]})
+    ev.set("dir_writer_listings_replayed", n)
+    ev.set("dir_writer_partitions_that_differ_from_the_model(spec drift, no alarm)", drift)
+    if drift:
+        print("SPEC-DRIFT (no alarm): %d listings are cut into other header runs than DirWriter.tla predicts (all decode correctly)" % drift)
     return n
 
 
@@ -259,7 +378,11 @@ def run(tier):
     if fn is None:
         ev.write()
         return 2
-    ev.set("evaluations", len(items) + fn)
+    dn = dir_writer_stage(work, rep, ev, tier, rng)
+    if dn is None:
+        ev.write()
+        return 2
+    ev.set("evaluations", len(items) + fn + dn)
     ev.set("distinct_nontrivial", len({l for l, _ in items}))
     ev.set("events_validated", nev)
     ev.set("rule", "one evaluation = one image produced by gensquashfs / tar2sqfs from the scenario family and boundary classes under a "
